@@ -1,9 +1,35 @@
 #!/usr/bin/env python3
 """C17 - concurrent queues (lock-free deque + queue back-end adapters): Lean model Deque + theorems
 Props/C17.lean, tied by E1 (controlled schedules over the real deque.hpp with hooks)."""
-import os, sys
+import json, os, re, subprocess, sys
 sys.path.insert(0, os.path.join(os.path.dirname(os.path.abspath(__file__)), '..', 'tools'))
 import e1check
+from vlib import HERE, BIN, REPO, run_e1, classify, write_replay
+
+# Which tagging discipline does the deque of this tree use?  (follow-up C17s)  The repaired
+# alloc_node/push_* keep the link tags across recycling (recycle_tags / next_link, `fix:` commit);
+# the model is Deque.stepG true for it, Deque.stepG false for the pinned tree.  The driver picks the
+# model from the log itself (the repaired alloc_node logs a `dq.tags` line), this scan only decides
+# what the directed ABA schedule is expected to do.
+DEQUE_HPP = os.path.join(REPO, 'libs/pika/concurrency/include/pika/concurrency/deque.hpp')
+try:
+    _src = re.sub(r'//[^\n]*', '', open(DEQUE_HPP).read())
+except OSError:
+    _src = ''
+REPAIRED = 'recycle_tags(chunk' in _src and 'next_link(n->right' in _src and 'next_link(n->left' in _src
+ABA_CASE = 'findings/C17-aba-link.case'
+
+# replays written by the FIFO sub-check (checks/C17F.py, real threads over the moodycamel back-end)
+# are replayed by that sub-check
+for _i, _a in enumerate(sys.argv):
+    if _a == '--replay' and _i + 1 < len(sys.argv):
+        _is_fifo = 'fifo-' in os.path.basename(sys.argv[_i + 1])
+        try:
+            _is_fifo = _is_fifo or 'FIFO' in json.load(open(sys.argv[_i + 1])).get('part', '')
+        except Exception:
+            pass
+        if _is_fifo:
+            os.execv(sys.executable, [sys.executable, os.path.join(HERE, 'checks', 'C17F.py')] + sys.argv[1:])
 
 
 def gen(rng, cid):
@@ -51,9 +77,114 @@ def nontrivial(c, r):
     return ' dq.cas 1 0 0' in raw or ' dq.lcas ' in raw
 
 
+def fifo_subcheck(ctx):
+    """FIFO back-end (follow-up C17s part 3): real threads over lockfree_fifo_backend / the thread_queue
+    counter protocol, judged against the Lean spec QSpec / wrapper model (checks/C17F.py)."""
+    if ctx['replay']:
+        return {}
+    args = [a for a in sys.argv[1:]]
+    r = subprocess.run([sys.executable, os.path.join(HERE, 'checks', 'C17F.py')] + args, capture_output=True, text=True, cwd=HERE)
+    viol = [l for l in r.stdout.splitlines() if l.startswith('VIOLATION')]
+    if r.returncode != 0 and not viol:
+        viol = [f'VIOLATION property=C17 replay={HERE}/evidence/C17F.json no-failing-input-found']
+        sys.stderr.write(r.stderr[-2000:])
+    for l in r.stdout.splitlines():
+        if not l.startswith('VIOLATION'):
+            print(l)
+    out = {'violations': viol, 'explanation': 'FIFO sub-check: ' + (r.stdout.strip().splitlines() or ['no output'])[0][:300]}
+    try:
+        cov = json.load(open(os.path.join(HERE, 'evidence', 'C17F.json')))['coverage']
+        out.update(evaluations=cov.get('evaluations', 0), validated=cov.get('traces_validated_against_impl', 0),
+                   disagreements=cov.get('disagreements_checked', 0))
+    except Exception:
+        pass
+    return out
+
+
+U32 = 1 << 32
+
+
+def gen_ciq(rng, cid):
+    """random pop_left / pop_right programs on one contiguous_index_queue (same grammar as checks/C11.py)"""
+    k = rng.weighted([(1, 1), (2, 4), (3, 4), (4, 2)])
+    size = rng.weighted([(0, 1), (1, 3), (2, 3), (3, 3), (5, 3), (8, 2), (13, 1)])
+    first = rng.weighted([(0, 4), (rng.below(1000), 3), (U32 - 1 - size - rng.below(3), 2), (rng.below(U32 - 100), 1)])
+    lines = [f'case {cid} first={first} last={first + size} seed={rng.below(1 << 30)} strat={rng.weighted([(0, 5), (1, 3), (2, 2)])}']
+    for t in range(k):
+        ops = [rng.weighted([('popl', 3), ('popr', 3)]) for _ in range(1 + rng.below(5))]
+        if rng.below(3) == 0:
+            ops = [ops[0]] * len(ops)
+        lines.append(f'thread {t}: ' + ' ; '.join(ops) + ' ;')
+    lines.append('endcase')
+    return '\n'.join(lines)
+
+
+def iq_subcheck(ctx):
+    """contiguous index queue (the third container C17 names): E1 controlled schedules of the real
+    contiguous_index_queue.hpp replayed through the Lean acceptor `iq` (theorems Props/C17Index.lean)."""
+    from vlib import compile_harness
+    ok, hbin, hlog = compile_harness('e1_ciq', 'e1/ciq.cpp', 'hooks', '-O1')
+    if not ok:
+        p = write_replay('C17', f"iq-build-failure-{ctx['seed']}.txt", hlog)
+        return {'violations': [f'VIOLATION property=C17 replay={p} no-failing-input-found'], 'explanation': 'index queue harness failed to build'}
+    if ctx['replay']:
+        return {}
+    n = 20000 if ctx['tier'] == 'thorough' else 1500
+    cases = [gen_ciq(ctx['rng'], f"iq{ctx['seed']}n{i}") for i in range(n)]
+    res = run_e1(hbin, 'iq', cases, tag='C17iq')
+    bad = [(classify(r), c, r) for c, r in zip(cases, res) if classify(r) != 'pass']
+    out = {'evaluations': n, 'validated': n - len(bad), 'disagreements': len([b for b in bad if b[0] == 'tie']),
+           'explanation': f'index queue sub-check: {n} E1 cases, {len(bad)} not accepted; cases with a failed CAS: ' + str(sum(1 for r in res if ' ciq.cas ' in r['raw']))}
+    viol = []
+    mon = [b for b in bad if b[0] == 'monitor']
+    pick = (mon or bad)[:1]
+    for k, c, r in pick:
+        what = r['verdict'].split('monitors FAIL:')[-1].strip() if 'monitors FAIL' in r['verdict'] else r['verdict']
+        p = write_replay('C17', f"iq-{k}-{ctx['seed']}.json", {'property': 'C17', 'kind': k, 'part': 'index queue', 'what': what, 'case': c,
+                         'impl_history': r['raw'], 'model_verdict': r['verdict'], 'not_accepted': len(bad),
+                         'rerun_cmd': f'cd {HERE} && ./check C11 --replay <this file>'})
+        viol.append(f'VIOLATION property=C17 replay={p}' + ('' if k == 'monitor' else ' no-failing-input-found'))
+    out['violations'] = viol
+    return out
+
+
+def extras(ctx):
+    a, f = aba_regression(ctx), fifo_subcheck(ctx)
+    q = iq_subcheck(ctx)
+    a = {'violations': a.get('violations', []) + q.get('violations', []), 'evaluations': a.get('evaluations', 0) + q.get('evaluations', 0),
+         'validated': a.get('validated', 0) + q.get('validated', 0), 'disagreements': a.get('disagreements', 0) + q.get('disagreements', 0),
+         'explanation': '; '.join(x for x in (a.get('explanation', ''), q.get('explanation', '')) if x)}
+    return {'violations': a.get('violations', []) + f.get('violations', []),
+            'evaluations': a.get('evaluations', 0) + f.get('evaluations', 0),
+            'validated': a.get('validated', 0) + f.get('validated', 0),
+            'disagreements': a.get('disagreements', 0) + f.get('disagreements', 0),
+            'explanation': '; '.join(x for x in (a.get('explanation', ''), f.get('explanation', '')) if x)}
+
+
+def aba_regression(ctx):
+    """Repaired tree: the directed schedule of the ABA finding must be accepted by the repaired model,
+    end with every value delivered exactly once, and thread 0's late link CAS must FAIL."""
+    if ctx['replay'] or not REPAIRED:
+        return {}
+    case = open(os.path.join(HERE, ABA_CASE)).read().strip()
+    r = run_e1(os.path.join(BIN, 'e1_deque'), 'deque', [case], tag='C17aba')[0]
+    late = [l for l in r['raw'].split('\n') if ' dq.lcas ' in l and l.split()[0] == '0']
+    ok = classify(r) == 'pass' and 'tags=keep' in r['verdict'] and late and all(' dq.lcas 1 0 0' in l for l in late)
+    out = {'evaluations': 1, 'validated': 1 if ok else 0, 'disagreements': 0 if ok else 1,
+           'explanation': f"directed ABA schedule {ABA_CASE} on the repaired tree: {r['verdict'][:160]}; late link CAS of thread 0: {late}"}
+    if not ok:
+        p = write_replay('C17', f"aba-regression-{ctx['seed']}.json",
+                         {'property': 'C17', 'kind': 'monitor', 'what': 'the directed ABA schedule (link CAS on a recycled node) is not rejected by the code: ' + r['verdict'],
+                          'case': case, 'impl_history': r['raw'], 'model_verdict': r['verdict'],
+                          'rerun_cmd': f'cd {HERE} && ./check C17 --replay {ABA_CASE}'})
+        out['violations'] = [f'VIOLATION property=C17 replay={p}' + ('' if classify(r) == 'monitor' else ' no-failing-input-found')]
+    return out
+
+
 def stats(c, r):
     raw = r['raw']
-    return {'anchor_cas_failed': raw.count(' dq.cas 1 0 0'), 'anchor_cas_ok': raw.count(' dq.cas 1 1 0'),
+    return {'tags_keep_cases': 1 if 'tags=keep' in r['verdict'] else 0,
+            'tag_lines': raw.count(' dq.tags '),'anchor_cas_failed': raw.count(' dq.cas 1 0 0'), 'anchor_cas_ok': raw.count(' dq.cas 1 1 0'),
             'link_cas': raw.count(' dq.lcas '), 'link_cas_failed': raw.count(' dq.lcas 1 0 0'),
             'recheck_failed': raw.count(' dq.chk 1 0 0'), 'allocs': raw.count(' dq.alloc '),
             'stale_link_cas': 1 if 'stale=true' in r['verdict'] else 0,
@@ -64,12 +195,19 @@ def stats(c, r):
 
 e1check.run(dict(
     prop='C17', model='deque', harness='e1/deque.cpp', bin='e1_deque', gen=gen, nontrivial=nontrivial, stats=stats,
-    findings=[dict(id='aba-link', case='findings/C17-aba-link.case', signature='(duplicate)')],
+    # pinned tree: the documented finding is replayed and reported as KNOWN-FINDING; repaired tree:
+    # the same directed schedule is a regression test (aba_regression)
+    findings=([] if REPAIRED else [dict(id='aba-link', case=ABA_CASE, signature='(duplicate)')]),
+    extra_check=extras,
+    props=['C17', 'C17Fifo', 'C17Index'],
     quick=3000, thorough=250000, extra=20000, libs='-latomic',
     rule='random programs (1-4 threads, 1-5 ops each over push_left/right, pop_left/right on one deque, or push(v,other_end)/pop(v,steal) on a lifo/abp_fifo/abp_lifo/fifo back-end), freelist pre-allocation 1-8 nodes, PRNG schedules (uniform / priority / sticky) over the hook points before every anchor load/compare/CAS, link load/store/CAS, alloc and free; the container is drained at the end and compared with the model chain; non-trivial = an anchor CAS failed or a stabilisation link CAS ran; distinct = distinct (program, schedule seed) text',
-    assumptions=['the contiguous index queue clauses of C17 are covered by Props/C17Index.lean (built with C11), not by this check',
+    assumptions=['the contiguous index queue clauses of C17 are covered by Props/C17Index.lean, audited here, and by an E1 sub-check of the real contiguous_index_queue.hpp against the acceptor `iq` (the same tie also runs in C11)',
                  'freelist (boost freelist_stack) modelled as an atomic allocate/deallocate of node identities; anchor and link tags modelled as unbounded naturals (16-bit in the code)',
-                 'the FIFO back-end wraps the third-party moodycamel ConcurrentQueue: conformance to the bag/FIFO-per-producer specification is tested (monitors), not proved',
-                 'C17_deque_conc is refuted for the pinned tree (machine-checked counterexample C17_deque_conc_refuted, replayed on the real code by corpus/C17/aba-link.case, listed in known_findings); the proved concurrent theorems carry the hypothesis that no stabilisation link-CAS succeeds on a recycled node (stale = false)'],
+                 'the FIFO back-end wraps the third-party moodycamel ConcurrentQueue: its algorithm is an assumption, stated as the Lean spec Fifo.QSpec (at-most-once pop per push, a pop that nothing overlaps succeeds on a non-empty queue, per-producer FIFO when no other dequeue is in flight) and tested on the real queue with real threads (checks/C17F.py); the wrapper (lockfree_fifo_backend, thread_queue counter protocol, move loop) is proved to preserve the spec (Props/C17Fifo.lean)',
+                 ('this tree carries the repair of the link-tag ABA (alloc_node/push_* keep the link tags across recycling): the unrestricted theorems C17_deque_fixed_* apply (model Deque.stepG true); the directed schedule of the finding is replayed as a regression and thread 0\'s late link CAS must fail'
+                  if REPAIRED else
+                  'C17_deque_conc is refuted for the pinned tree (machine-checked counterexample C17_deque_conc_refuted, replayed on the real code by findings/C17-aba-link.case, listed in known_findings); the concurrent theorems for the pinned tree carry a hypothesis on the log: no stale link CAS on a live link (harmFreeB, weakest), implied by stale = false, implied by NoRecycledCas (no link CAS succeeds on a node freed under the snapshot)'),
+                 'the repaired model assumes of the freelist that a free node keeps the tag bits of its first word (boost freelist_stack: tagged_ptr::set_ptr) and that fresh memory is zero-filled; both are checked on every run by the acceptor (tags of every link load) and the dq.tags monitor'],
     trusted_extra=['hooks in deque.hpp compute the outcome of each CAS / comparison immediately before the real instruction inside one atomic block of the baton engine'],
 ))
